@@ -61,6 +61,7 @@ def strategy(tier: str):
             "second": st.sampled_from((False, False, True)),
             "how": st.sampled_from(("save", "save", "load-save", "stop", "context")),
             "old_layout": st.sampled_from(("native", "native", "legacy", "legacy-nulls")),
+            "link": st.sampled_from((False, False, True)),
         }
     )
 
@@ -81,6 +82,8 @@ def enumerate_cases(tier: str):
                 if old is None and layout != "native":
                     continue
                 yield {"old": old, "new": new, "same": False, "second": how == "save" and layout == "native", "how": how, "old_layout": layout}
+                if old is not None and layout == "native":
+                    yield {"old": old, "new": new, "same": False, "second": False, "how": how, "old_layout": layout, "link": True}
 
 
 # ---------------------------------------------------------------------------
@@ -271,7 +274,9 @@ def _dir_state(scratch: str) -> dict:
     state = {}
     for name in sorted(os.listdir(scratch)):
         full = os.path.join(scratch, name)
-        if os.path.isfile(full):
+        if os.path.islink(full):
+            state[name] = ("symlink", os.readlink(full))
+        elif os.path.isfile(full):
             with open(full, "rb") as fil:
                 state[name] = fil.read()
     return state
@@ -280,11 +285,14 @@ def _dir_state(scratch: str) -> dict:
 def _restore(scratch: str, state: dict) -> None:
     for name in os.listdir(scratch):
         full = os.path.join(scratch, name)
-        if os.path.isdir(full):
+        if os.path.isdir(full) and not os.path.islink(full):
             shutil.rmtree(full, ignore_errors=True)
         else:
             os.unlink(full)
     for name, data in state.items():
+        if isinstance(data, tuple):
+            os.symlink(data[1], os.path.join(scratch, name))
+            continue
         with open(os.path.join(scratch, name), "wb") as fil:
             fil.write(data)
 
@@ -402,6 +410,10 @@ def run_case(case: dict) -> Outcome:
                     raise RuntimeError(f"legacy form of the old registry does not load: {loaded_old!r}")
                 old_snap = loaded_old
             start = {os.path.basename(path): old_bytes}
+            if case.get("link"):
+                # the configured path is a symbolic link to the real file (a synced or mounted configuration directory)
+                os.unlink(path)
+                start = {"synced-registry.json": old_bytes, os.path.basename(path): ("symlink", "synced-registry.json")}
 
         async def final_state() -> tuple[bytes, dict]:
             # what a complete, undisturbed run of the same flow leaves behind
@@ -458,5 +470,5 @@ def run_case(case: dict) -> Outcome:
     if known_failure is not None:
         known_failure.extra_evals = forks_total - 1
         return known_failure
-    classes = (f"how={case.get('how', 'save')}", f"old-layout={case.get('old_layout', 'native')}", f"ops={min(info['ops'], 12)}", "old=none" if old is None else ("old=empty" if not old else "old=nonempty"), "same" if case.get("same") else "different") + (("two-crashes",) if info["second"] else ())
+    classes = (("live-path-is-a-symlink",) if case.get("link") else ()) + (f"how={case.get('how', 'save')}", f"old-layout={case.get('old_layout', 'native')}", f"ops={min(info['ops'], 12)}", "old=none" if old is None else ("old=empty" if not old else "old=nonempty"), "same" if case.get("same") else "different") + (("two-crashes",) if info["second"] else ())
     return Outcome(ok=True, nontrivial=info["inside"] > 0, classes=classes, extra_evals=forks_total - 1)
